@@ -648,7 +648,7 @@ def _check_state(b, part, model, hist, queries=True):
     for cls in (sc.GenericNote, sc.Note, sc.Rest, sc.Measure, None):
         for incl in (False, True):
             for mode in ("starting", "ending"):
-                for (s, e) in ((None, None), (1, 5), (0, 2), (2, 2), (5, None)):
+                for (s, e) in ((None, None), (1, 5), (0, 2), (2, 2), (5, None), (0, 0), (None, 0), (3, 0), (0, None), (None, 1)):
                     got = list(part.iter_all(cls, s, e, include_subclasses=incl, mode=mode))
                     c = cls if cls is not None else object
                     want = model.iter_all(c, s, e, incl or cls is None, mode, _subs)
